@@ -59,6 +59,24 @@ impl IncludeError {
     }
 }
 
+pub struct IncludedFileError {
+    pub path: String,
+    pub file_id: Option<FileID>,
+    pub file_location: FileLocation,
+}
+impl IncludedFileError {
+    pub fn into_report(self) -> Report {
+        let mut report = Report::error(
+            format!("Failed to parse the included file `{}`.", self.path),
+            ReportCode::ParseFail,
+        );
+        if let Some(file_id) = self.file_id {
+            report.add_primary(self.file_location, file_id, "File included here.".to_string());
+        }
+        report
+    }
+}
+
 pub struct MultipleMainError;
 impl MultipleMainError {
     pub fn produce_report() -> Report {
